@@ -145,6 +145,10 @@ class TreeBuilder:
         return Adt('Expression', 'NamedFunctionCall', (self.loc(), BoxV(f), VecV(
             [Adt('NamedArgument', None, (self.loc(), self.ident(n), e)) for n, e in named])))
 
+    def args_stmt(self, named):
+        """the `{value: v, gas: g}` part of a call with options (Statement::Args)"""
+        return Adt('Statement', 'Args', (self.loc(), VecV([Adt('NamedArgument', None, (self.loc(), self.ident(n), e)) for n, e in named])))
+
     def call_block(self, f, block):
         return Adt('Expression', 'FunctionCallBlock', (self.loc(), BoxV(f), BoxV(block)))
 
